@@ -1730,13 +1730,23 @@ pub fn type_check_module(
     if let Some(type_definition) = toplevel.type_definition() {
       match type_definition {
         TypeDefinition::Struct {
-          loc: _,
+          loc: type_definition_loc,
           start_associated_comments: _,
           ending_associated_comments: _,
           fields,
         } => {
           for field in fields {
             cx.validate_type_instantiation_strictly(&Type::from_annotation(&field.annotation))
+          }
+          // The generated constructor takes the name `init` among the members.
+          for member in toplevel.members_iter() {
+            if member.name.name.eq(&PStr::INIT) {
+              cx.error_set.report_name_already_bound_error(
+                member.name.loc,
+                PStr::INIT,
+                *type_definition_loc,
+              );
+            }
           }
         }
         TypeDefinition::Enum {
